@@ -59,6 +59,19 @@ def cases(tier, seed):
                 + rng.choice(["", "", "where str(<item>) != 'q'\n"]))
         st = dict(population_size=rng.choice([10, 20]), max_generations=rng.choice([10, 20]), desired_solutions=rng.choice([15, 30]))
         out.append({"key": f"multirep-{i}", "cfg": {"spec": spec, "settings": st, "random_seed": rng.randrange(10000), "parse_inputs": ["2:ab;3:abc;2:zz"]}})
+    # ambiguous grammars: the ORDER of the parse forest (and of everything derived from it) is part of the result
+    from properties.c12 import AMBIGUOUS, AMBIGUOUS_INPUTS
+    AMB2 = [("<start> ::= <x> <x> <x>\n<x> ::= <a> <c> | <b> <c>\n<a> ::= 'p'\n<b> ::= 'p'\n<c> ::= 'q'\n", ["pqpqpq"]),
+            ("<start> ::= <k> '-' <v>\n<k> ::= <a> <c> | <b> <c>\n<a> ::= 'p' | 'pp'\n<b> ::= 'p'+\n<c> ::= 'q'\n<v> ::= <digit>{2}\n<digit> ::= '0'|'1'|'2'|'3'|'4'|'5'|'6'|'7'|'8'|'9'\n"
+             "where int(<v>) % 3 == 1\n", ["pq-10", "ppq-07"])]
+    for i in range(8 if tier == "quick" else 60):
+        if i % 4 < 2:
+            spec, words = AMB2[i % 2]
+        else:
+            j = (i // 2) % len(AMBIGUOUS)
+            spec, words = AMBIGUOUS[j], [w for w in AMBIGUOUS_INPUTS[j] if w]
+        st = dict(population_size=rng.choice([5, 10]), max_generations=rng.choice([2, 4]), desired_solutions=rng.choice([5, 10]))
+        out.append({"key": f"ambiguous-{i}", "cfg": {"spec": spec, "settings": st, "random_seed": rng.randrange(10000), "parse_inputs": ["s:" + w for w in words]}})
     tn = list(TEMPLATES)
     for i in range(6 if tier == "quick" else 100):
         body, cons = TEMPLATES[tn[i % len(tn)]]
